@@ -33,6 +33,12 @@ class Rig:
         self.f = TransferFuture(coordinator=self.c)
         self.ran_cleanups = []
         self.ran_done = []
+        self.in_factory = None      # threaded runs: a scheduling point inside cancel()'s exc_type(msg) call
+
+    def _cancel_exc(self, n):
+        if self.in_factory is not None:
+            self.in_factory()
+        return Exc(n)
 
     def apply(self, op, arg):
         from s3transfer.exceptions import TransferNotDoneError
@@ -45,7 +51,7 @@ class Rig:
             elif op == 'set-exception1':
                 c.set_exception(Exc(arg), override=True)
             elif op == 'cancel':
-                c.cancel('m%d' % arg, lambda msg, n=arg: Exc(n))
+                c.cancel('m%d' % arg, lambda msg, n=arg: self._cancel_exc(n))
             elif op == 'to-queued':
                 c.set_status_to_queued()
             elif op == 'to-running':
@@ -153,6 +159,8 @@ def threaded_case(seed, plans, mode):
             def __exit__(self, *a):
                 self.release()
         rig.c._lock = LoggedLock()
+        # building the cancellation error takes time: the other threads may run while cancel() holds the state lock
+        rig.in_factory = lambda: sch.point(('exc-type',))
         results = {}
 
         def worker(i, plan):
@@ -179,6 +187,8 @@ def threaded_case(seed, plans, mode):
             final['result'] = rig.result_outcome()
         final = {}
         fail = sch.run(main, timeout=30)
+        if fail is None and sch.thread_errors:
+            fail = RuntimeError('thread %s died: %r' % (sch.thread_errors[0][0], sch.thread_errors[0][1]))
         lin = sorted([x for outs in results.values() for x in outs])
         return lin, final.get('state', ''), final.get('result', ''), fail, sch
 
